@@ -160,6 +160,7 @@ impl Report {
 #[derive(Clone, Copy, Debug, PartialEq, Eq)]
 pub enum Tier { Quick, Thorough }
 
+
 impl Tier {
     pub fn name(self) -> &'static str {
         match self { Tier::Quick => "quick", Tier::Thorough => "thorough" }
@@ -258,9 +259,20 @@ pub fn worker_main(check: &Check, tier: Tier, seed: u64, shard: usize, shards: u
     let mut ctx = Ctx {
         id: check.id, tier, seed, shard, shards, replay,
         scratch: scratch.to_path_buf(), progress,
-        deadline: Instant::now() + (check.budget)(tier),
+        deadline: Instant::now() + {
+            // sanitizer legs set their own soft budget (the work is 25x - 10000x slower there)
+            let b = (check.budget)(tier);
+            match std::env::var("RV_BUDGET_SECS").ok().and_then(|s| s.parse::<u64>().ok()) { Some(n) => Duration::from_secs(n), None => b }
+        },
     };
     let mut report = Report::default();
+    // Self-test of the sanitizer legs (never set by a registered command): a deliberate out-of-bounds heap read,
+    // which valgrind memcheck and Miri must both report.
+    if std::env::var("RV_SELFTEST_OOB").is_ok() {
+        let v = vec![1u8; 16];
+        let x = unsafe { std::ptr::read_volatile(v.as_ptr().add(40)) };
+        report.note(format!("self-test read {x}"));
+    }
     let res = std::panic::catch_unwind(std::panic::AssertUnwindSafe(|| {
         (check.run)(&mut ctx, &mut report);
     }));
@@ -357,6 +369,9 @@ pub fn supervise(check: &Check, tier: Tier, seed: u64, replay: Option<(PathBuf, 
         }
     }
     if let Some(finish) = check.finish { finish(tier, &mut merged) }
+    if replay.is_none() && (tier == Tier::Thorough || std::env::var("RV_SANITIZER_LEGS").is_ok()) {
+        crate::sanitize::legs(check, seed, &root, &mut merged);
+    }
     let _ = std::fs::remove_dir_all(&root);
     conclude(check, tier, seed, merged, start.elapsed())
 }
